@@ -379,7 +379,7 @@ def st_expr(draw, cols, depth=2, need_ref=False, lit=st.integers(-3, 3), restric
     return (op, a, b) if draw(st.booleans()) else (op, b, a)
 
 
-def st_range(lo=-6, hi=6, steps=(1, 1, 2, 3)):
+def st_range(lo=-6, hi=6, steps=(1, 1, 2, 3, -1, -2)):
     return st.tuples(st.integers(lo, hi), st.integers(lo, hi), st.sampled_from(list(steps)))
 
 
